@@ -8,7 +8,7 @@ from typing import List, Optional
 from ..callgraph import callgraph
 from ..cfg import cfg_of, edges_dominate, must_reach, node_calls, node_dominates, reach
 from ..defuse import def_value, defs_of, reaching_defs, resolve_alias
-from ..esp import SELF, run_function, run_method, valuations
+from ..esp import UNKNOWN, SELF, run_function, run_method, valuations
 from ..model import Repo, attr_chain, body_nodes, norm, short
 from .C04 import approval_edges
 from .common import trace_str
@@ -37,7 +37,7 @@ def content_addr(repo: Repo, rep):
         "storage.lookup_all(<that name>) is empty; the suffix is checked to start with '.'",
     )
     f = repo.func("_external.py::outsource")
-    outs, eng = run_function(repo, f, next(valuations()))
+    outs, eng = run_function(repo, f, UNKNOWN)
     rets = [o for o in outs if o.kind == "ret"]
     if not rets:
         rep.undecided("R-CONTENT-ADDR", "outsource has no returning path")
@@ -331,7 +331,7 @@ def lookup(repo: Repo, rep):
     if f is None:
         rep.undecided("R-LOOKUP-STRICT", "_lookup_path missing")
         return
-    outs, eng = run_method(repo, f, ds, next(valuations()))
+    outs, eng = run_method(repo, f, ds, UNKNOWN)
     rets = [o for o in outs if o.kind == "ret"]
     excs = [o for o in outs if o.kind == "exc"]
     bad = False
